@@ -2,7 +2,7 @@
    Statements only; proofs live in proofs/Coord*.v.
    The matcher-loop theorems (narrowing_sound, loop_fresh, last_request_wins) belong to the C13 package; here the
    matcher is "one mailbox slot with the latest request + at most one running scan, published or cancelled". *)
-From Fzf Require Import Prelude CoordSpec CoordModel CoordFlat CoordProofs CoordMore CoordMain CoordProgress CoordRevision.
+From Fzf Require Import Prelude CoordSpec CoordModel CoordFlat CoordProofs CoordMore CoordMain CoordProgress CoordRevision SearchStrSpec SearchStrModel SearchStrProofs.
 Open Scope Z_scope.
 
 (* For EVERY schedule (any interleaving of reader pushes / polls / end of input, terminal action lists - typing,
@@ -109,6 +109,44 @@ Example revision_identifies_snapshot_nonvacuous :
     r_items r1 = [5] /\ r_items r2 = [7] /\ r_final r1 = true /\ r_final r2 = true /\ r_query r1 = r_query r2 /\
     r_sort r1 = r_sort r2 /\ r_rev r1 = (0%nat, 0%nat) /\ r_rev r2 = (1%nat, 0%nat).
 Proof. exact reload_sync_same_count_example. Qed.
+
+(* ---- the search string: search(X) / transform-search(X) (spec/SearchStrSpec.v, model/SearchStrModel.v) ----
+   input_is_query_in_effect: for EVERY history of actions (search strings and actions after which the query line has
+   a given text, chained or not), what Terminal.Input() hands to the coordinator (model of terminal.go: inputOverride,
+   dropped after an action iff the text of the line differs from the text before that action) is the spec's query in
+   effect: the string of the last search action if no later action changed the text of the query line, the query
+   line otherwise.  This is the string the coordinator theorems above call t_input. *)
+Theorem input_is_query_in_effect : forall t0 h,
+  tq_Input (tq_run (mkTq t0 None) h) = query_in_effect t0 h.
+Proof. exact input_is_query_in_effect_proof. Qed.
+Print Assumptions input_is_query_in_effect.
+
+(* the most recent query is never left with the string of an older search: after ANY history, an action that
+   changes the text of the query line to n (any n different from the line before it - of the same length or not)
+   makes n the query in effect; a search action is in effect at once; an action that leaves the text of the line as
+   it is changes nothing *)
+Theorem changed_query_in_effect : forall t0 h n,
+  line_after t0 h <> n -> query_in_effect t0 (h ++ [QEdit n]) = n.
+Proof. exact changed_query_in_effect_proof. Qed.
+Print Assumptions changed_query_in_effect.
+
+Theorem search_in_effect : forall t0 h x, query_in_effect t0 (h ++ [QSearch x]) = x.
+Proof. exact search_in_effect_proof. Qed.
+Print Assumptions search_in_effect.
+
+Theorem same_text_keeps_search : forall t0 h,
+  query_in_effect t0 (h ++ [QEdit (line_after t0 h)]) = query_in_effect t0 h.
+Proof. exact same_text_keeps_proof. Qed.
+Print Assumptions same_text_keeps_search.
+
+(* non-vacuity: line "foo", search(bar), then change-query(baz) - same length, other text: "baz" is in effect;
+   change-query(foo) instead keeps "bar" *)
+Example search_string_nonvacuous :
+  query_in_effect [102;111;111] [QSearch [98;97;114]] = [98;97;114] /\
+  query_in_effect [102;111;111] [QSearch [98;97;114]; QEdit [98;97;122]] = [98;97;122] /\
+  query_in_effect [102;111;111] [QSearch [98;97;114]; QEdit [102;111;111]] = [98;97;114] /\
+  tq_Input (tq_run (mkTq [102;111;111] None) [QSearch [98;97;114]; QEdit [98;97;122]]) = [98;97;122].
+Proof. repeat split; reflexivity. Qed.
 
 (* Open items: none of the C08 coordinator statements is left unproved.  (Not part of this file: the matcher-loop
    theorems of the C13 package; timing - goroutine scheduling, timers - is explored by the harness, not proved.) *)
